@@ -18,6 +18,9 @@ Model: lean/MlModel/Model/Agg/HeapObs.lean (populations with returned values and
 One case = a program over numbered accumulators and the list `outs` of every value the caller was handed:
   {"op":"make"} {"op":"add","acc":i,"batch":..} {"op":"merge","acc":i,"other":j} {"op":"result","acc":i}
   {"op":"poke","out":k,"arr":n,"val":v}      outs[k].<n-th private array>[...] = v   (mutate one side ...)
+  {"op":"merge_states","accs":[i,j,..],"container":c}   ONE call agg_fn.merge_states(<container of the states i, j, ..>), 0..9
+                                              states (work package SC11; model: Model/Agg/HeapMS.lean SysR.mergeStates);
+                                              ThresholdedRetrieval via base.as_agg_fn, Histogram via .as_agg_fn()
 After EVERY op both sides report
   classes : for the arrays [public arrays of acc 0.., arrays of outs 0..] the partition into "same memory"
             (real code: `is` / np.shares_memory, transitive closure; model: equal buffer reference)
@@ -84,6 +87,14 @@ class ThrAdapter:
     accs[i].merge(accs[j])
 
   @staticmethod
+  def agg_fn(case):
+    from ml_metrics._src.aggregates import base as B
+    from ml_metrics._src.aggregates import retrieval as R
+    ts = [_fl(t) for t in case['thresholds']]
+    names = [k if t is None else f'{k}@{_fl(t)!r}' for k, t in case['metrics']]
+    return B.as_agg_fn(R.ThresholdedRetrieval, thresholds=tuple(ts), metrics=tuple(names))
+
+  @staticmethod
   def do_result(case, accs, i):
     return ThrAdapter.result_out(case, accs[i].result())
 
@@ -126,6 +137,7 @@ class ThrAdapter:
     def make(self): pass
     def add(self, i, ok=True): return 3 if ok else 0
     def merge(self, i, j): pass
+    def merge_states(self, ids): pass
     def result(self, i): return self.n_res
 
   @staticmethod
@@ -203,6 +215,10 @@ class CmStateAdapter:
     accs[i] = CmStateAdapter.fn(case).merge_states([accs[i], accs[j]])
 
   @staticmethod
+  def agg_fn(case):
+    return CmStateAdapter.fn(case)
+
+  @staticmethod
   def do_result(case, accs, i):
     if accs[i] is not None:
       CmStateAdapter.fn(case).get_result(accs[i])
@@ -253,6 +269,9 @@ class CmStateAdapter:
       self.live[i] = True
       return n
     def merge(self, i, j): self.live[i] = self.live[i] or self.live[j]
+    def merge_states(self, ids):
+      if ids:
+        self.live[ids[0]] = any(self.live[i] for i in ids)
     def result(self, i): return 0
 
   @staticmethod
@@ -294,6 +313,10 @@ class HistAdapter:
     accs[i].merge(accs[j])
 
   @staticmethod
+  def agg_fn(case):
+    return HistAdapter.make(case).as_agg_fn()
+
+  @staticmethod
   def do_result(case, accs, i):
     r = accs[i].result()
     return [r.hist, r.bin_edges], []
@@ -333,6 +356,7 @@ class HistAdapter:
     def make(self): pass
     def add(self, i, ok=True): return 2
     def merge(self, i, j): pass
+    def merge_states(self, ids): pass
     def result(self, i): return 2
 
   @staticmethod
@@ -415,6 +439,14 @@ def run_impl(case):
           inputs_ok = deep_close(canon(before), canon(args))
       elif k == 'merge':
         ad.do_merge(case, accs, op['acc'], op['other'])
+      elif k == 'merge_states':
+        from harness.lib_states import pack
+        ids = op['accs']
+        st = ad.agg_fn(case).merge_states(pack([accs[i] for i in ids], op.get('container')))
+        if ids:
+          accs[ids[0]] = st          # what the caller goes on with
+        elif st is not None:
+          raise AssertionError('merge_states([]) returned an object')
       elif k == 'result':
         outs.append(ad.do_result(case, accs, op['acc']))
       elif k == 'poke':
@@ -499,6 +531,8 @@ def oracle(case, obs):
     if not o['inputs_ok']:
       return f'op {t} (add): the arrays passed to add() were modified'
     recv = op.get('acc') if k in ('add', 'merge') and o['err'] is None else None
+    if k == 'merge_states' and op['accs'] and o['err'] is None:
+      recv = op['accs'][0]         # "Only the first state may be modified" (base.py:130)
     if prev is not None:
       for a, (r0, r1) in enumerate(zip(prev['readings'], o['readings'])):
         if a != recv and not deep_close(r0, r1, rel=1e-9, abs_=1e-12):
@@ -521,7 +555,7 @@ def oracle(case, obs):
 
 def nontrivial(case, obs):
   ks = [op['op'] for op in case['prog']]
-  return 'merge' in ks and ('result' in ks or 'poke' in ks)
+  return ('merge' in ks or 'merge_states' in ks) and ('result' in ks or 'poke' in ks)
 
 
 def finding(case, what):
@@ -567,12 +601,95 @@ def _random_prog(rng, ad, cfg, n_ops, malformed):
   return prog
 
 
+def _ms_prog(rng, ad, cfg, n, where, container, bystander):
+  """ONE merge_states call over n states (work package SC11): n accumulators, each fed 0-2 batches (the ones at the list
+  positions `where` never updated), some results read before, the list in any order (optionally one state left out),
+  then a result of EVERY state, a caller write into an array handed out before the call, and later updates on either
+  side.  The readings of all accumulators and the content of all returned arrays are observed after every operation."""
+  sim = ad.Sim(cfg)
+  prog, outs = [], []
+
+  def emit(op):
+    prog.append(op)
+    k = op['op']
+    if k == 'make':
+      sim.make()
+    elif k == 'add':
+      outs.append(sim.add(op['acc']))
+    elif k == 'merge_states':
+      sim.merge_states(op['accs'])
+    elif k == 'result':
+      outs.append(sim.result(op['acc']))
+  for _ in range(n):
+    emit({'op': 'make'})
+  order = list(range(n))
+  if rng.random() < 0.5:
+    rng.shuffle(order)
+  if bystander and n >= 3:
+    order.remove(rng.choice(order))
+  unfed = set()
+  if order:
+    if 'first' in where:
+      unfed.add(order[0])
+    if 'last' in where and len(order) > 1:
+      unfed.add(order[-1])
+    if 'middle' in where and len(order) > 2:
+      unfed.add(order[rng.randrange(1, len(order) - 1)])
+  for i in range(n):
+    if i not in unfed:
+      for _ in range(2 if rng.random() < 0.3 else 1):
+        emit({'op': 'add', 'acc': i, 'batch': ad.gen_batch(rng, cfg)})
+  for i in range(n):
+    if rng.random() < 0.3:
+      emit({'op': 'result', 'acc': i})
+  emit({'op': 'merge_states', 'accs': order, 'container': container})
+  for i in range(n):
+    emit({'op': 'result', 'acc': i})
+  live = [k for k, m in enumerate(outs) if m]
+  if live and rng.random() < 0.6:
+    k = rng.choice(live)
+    emit({'op': 'poke', 'out': k, 'arr': rng.randrange(outs[k]), 'val': rng.choice([0, 5, 7])})
+  others = [i for i in range(n) if not order or i != order[0]]
+  if order and others and rng.random() < 0.7:
+    emit({'op': 'add', 'acc': rng.choice(others), 'batch': ad.gen_batch(rng, cfg)})
+    emit({'op': 'add', 'acc': order[0], 'batch': ad.gen_batch(rng, cfg)})
+    if rng.random() < 0.5:     # a second call with the (already merged) first state first again
+      emit({'op': 'merge_states', 'accs': order[:1] + [i for i in others if i in order][:3], 'container': container})
+  return prog, order, unfed
+
+
+MS_WHERE = [(), ('first',), ('middle',), ('last',), ('first', 'last'), ()]
+
+
 def gen_cases(ctx):
   import random
+  from harness.lib_states import KINDS as CONTAINERS
   rng = ctx.rng
   for c in ctx.corpus('C11_heapobs'):
     ctx.count('heapobs:source', 'corpus')
     yield c
+  # merge_states over MANY states: every class x every n = 0..9 (x 2 rounds quick, x 40 thorough)
+  t = 0
+  for ad in ADAPTERS.values():
+    for rnd in range(2 if ctx.quick else 40):
+      for n in range(0, 10):
+        cfg = ad.gen_cfg(rng) if rnd else ad.fixed_cfg()
+        where, container = MS_WHERE[t % len(MS_WHERE)], CONTAINERS[t % len(CONTAINERS)]
+        prog, order, unfed = _ms_prog(rng, ad, cfg, n, where, container, bystander=(t % 4 == 3))
+        t += 1
+        ctx.count('heapobs:source', 'merge_states')
+        ctx.count('heapobs:class', ad.name)
+        ctx.count(f'heapobs:merge_states n/{ad.name}', n)
+        ctx.count('heapobs:merge_states container', container)
+        ctx.count('heapobs:merge_states list length', len(order))
+        for w in where:
+          if (w == 'first' and order) or (w == 'last' and len(order) > 1) or (w == 'middle' and len(order) > 2):
+            ctx.count('heapobs:merge_states never-updated state', w)
+        if len(order) < n:
+          ctx.count('heapobs:merge_states never-updated state', 'bystander outside the list')
+        for op in prog:
+          ctx.count('heapobs:op', op['op'])
+        yield dict(cls=ad.name, prog=prog, **cfg)
   for ad in ADAPTERS.values():
     # small-exhaustive: every sequence of 3 operations from a fixed alphabet after a fixed prefix
     # (three accumulators: 0 and 1 updated once, 2 never updated)
@@ -641,18 +758,39 @@ def shrink(case, fails):
 
 class C11:
   LEAN_MODULES = ['MlModel.Properties.C11.RetrievalThrHeap', 'MlModel.Properties.C11.ClassificationStateHeap',
-                  'MlModel.Properties.C11.RollingHistHeap']
+                  'MlModel.Properties.C11.RollingHistHeap', 'MlModel.Properties.C11.MergeStates',
+                  'MlModel.Properties.C11.ClassificationMergeStates',
+                  'MlModel.Witness.C11MergeStates']
   TRUSTED = TRUSTED
   ASSUMPTIONS = ASSUMPTIONS
   RULE = ('heapobs [ThresholdedRetrieval; ConfusionMatrixAggFn state API (binary / macro / micro, explicit vocabulary); Histogram (unit bins)]: programs '
-          'of make / add / merge / result / poke (the caller overwrites an array of a value it was handed: a batch object, a '
-          'result array, the previous state object of update_state) over 2-5 accumulators: corpus, then every sequence of 3 '
+          'of make / add / merge / merge_states / result / poke (the caller overwrites an array of a value it was handed: a batch object, a '
+          'result array, the previous state object of update_state) over 2-5 accumulators: corpus, then ONE merge_states call '
+          'over n = 0..9 states per class (never-updated states first / middle / last, any order, bystander, container list / '
+          'tuple / generator / iterator / deque; a result of every state afterwards, a caller write, later updates on either '
+          'side; arms enforced), then every sequence of 3 '
           'operations from a 9-letter alphabet after a fixed prefix (two updated accumulators and a never-updated one), then '
           'random programs of 4-12 operations (ThresholdedRetrieval: 10% with an add the matcher rejects); after EVERY '
           'operation the partition of all public and returned arrays into same-memory classes and their contents are '
           'compared with the heap model; non-trivial = contains a merge and a result or poke; distinct = distinct canonical '
           'case JSON')
   gen_cases = staticmethod(gen_cases)
+
+  @staticmethod
+  def extra(ctx):
+    from harness.core import InfraError
+    from harness.lib_states import KINDS as CONTAINERS
+    missing = []
+    for ad in ADAPTERS:
+      got = ctx.hist.get(f'heapobs:merge_states n/{ad}', {})
+      missing += [f'{ad}: merge_states over {n} states' for n in range(10) if not got.get(str(n))]
+    got = ctx.hist.get('heapobs:merge_states container', {})
+    missing += [f'container {c}' for c in CONTAINERS if not got.get(c)]
+    got = ctx.hist.get('heapobs:merge_states never-updated state', {})
+    missing += [f'never-updated state {w}' for w in ('first', 'middle', 'last', 'bystander outside the list') if not got.get(w)]
+    if missing:
+      raise InfraError(f'heapobs: generator missed promised arms {missing}')
+
   run_impl = staticmethod(run_impl)
   model_requests = staticmethod(model_requests)
   model_obs = staticmethod(model_obs)
